@@ -48,6 +48,13 @@ type indexRules interface {
 	index(c *checker, x *Index) Expr
 }
 
+// overloadRules: the dialect's overload resolution among candidates (result:
+// the chosen candidate's ref, or nil with why = "none" / "ambiguous").
+// Default: GLSL 4.60 §6.1.1.
+type overloadRules interface {
+	pickOverload(c *checker, x *Call, cands []candidate) (ref any, why string)
+}
+
 // dialectHooks are the evaluator-side hooks of a Program.
 type dialectHooks struct {
 	// binary evaluates a Binary / compound assignment whose Mode is bmCustom.
